@@ -44,7 +44,8 @@ Proof.
   - (* mt issue denom *)
     destruct (mt_has_class _ _); [discriminate|]. eapply lift_mt_inv; [exact E|].
     cbn [fst]. eapply MtInv_same_ledger; [|exact I]. split; reflexivity.
-  - destruct (lookup _ (ms_classes _)) as [owner|]; [|discriminate].
+  - destruct (N.eqb amt 0); [discriminate|].
+    destruct (lookup _ (ms_classes _)) as [owner|]; [|discriminate].
     destruct (negb _); [discriminate|]. destruct (mt_exists _ _ _); [discriminate|].
     rewrite mt_issue_as_mint in E.
     set (st0 := mkMtState _ _ _ _ _) in E.
@@ -53,17 +54,20 @@ Proof.
     destruct (N.ltb_spec u64max (supply_of st0 class id + amt)) as [OV|NOV].
     + rewrite (MF OV) in E. discriminate.
     + destruct (MO NOV) as (st' & M & I' & _). rewrite M in E. inversion E; subst. exact I'.
-  - destruct (lookup _ (ms_classes _)) as [owner|]; [|discriminate].
+  - destruct (N.eqb amt 0); [discriminate|].
+    destruct (lookup _ (ms_classes _)) as [owner|]; [|discriminate].
     destruct (negb _); [discriminate|]. destruct (negb (mt_exists _ _ _)); [discriminate|].
     destruct (mt_mint_inv (a_mt (c_app app_state c)) class id amt rcpt I) as [MF MO].
     destruct (N.ltb_spec u64max (supply_of (a_mt (c_app app_state c)) class id + amt)) as [OV|NOV].
     + rewrite (MF OV) in E. discriminate.
     + destruct (MO NOV) as (st' & M & I' & _). rewrite M in E. inversion E; subst. exact I'.
-  - destruct (mt_transfer_inv (a_mt (c_app app_state c)) class id amt from to I) as [TF TO].
+  - destruct (N.eqb amt 0); [discriminate|].
+    destruct (mt_transfer_inv (a_mt (c_app app_state c)) class id amt from to I) as [TF TO].
     destruct (N.ltb_spec (bal_of (a_mt (c_app app_state c)) from class id) amt) as [LT|GE].
     + rewrite (TF LT) in E. discriminate.
     + destruct (TO GE) as (st' & T & I' & _). rewrite T in E. inversion E; subst. exact I'.
-  - destruct (mt_burn_inv (a_mt (c_app app_state c)) class id amt owner I) as [BF BO].
+  - destruct (N.eqb amt 0); [discriminate|].
+    destruct (mt_burn_inv (a_mt (c_app app_state c)) class id amt owner I) as [BF BO].
     destruct (N.ltb_spec (bal_of (a_mt (c_app app_state c)) owner class id) amt) as [LT|GE].
     + rewrite (BF LT) in E. discriminate.
     + destruct (BO GE) as (st' & T & I' & _). rewrite T in E. inversion E; subst. exact I'.
